@@ -35,6 +35,11 @@ CHECKS = {
    text="Every sequence of <=2 (thorough 3) transactions from 19 adversarial templates (same outpoint twice in one tx, same outpoint in two txs of the block, spend of an output created earlier in the block, locked output, foreign owner, missing output, inflating outputs, wrong key, signature for another chain id, sender-cache path, MuSig2 two-owner spend, cross-zone ETX, conversion, address reuse) is executed as the Qi part of one block on leveldb, pebble, memorydb and the table wrapper: whenever the reference ledger demands refusal the implementation refuses, accepted transactions conserve value (in = local outputs + sent away + fee) with matching supply deltas, the UTXO prefix after batch.Write equals the reference ledger, and verdict vectors are identical across backends. All pairs of conflicting/dependent spends offered to the real mempool yield worker blocks that the node accepts, that never name an outpoint twice and whose commitments equal the stored ledger.",
    note="Trusts: 3 keys, denominations from a small menu, block context (base fee, exchange rate, eligibility) of one real zone node in regime R1; block-level 'evil miner' bodies with recomputed state roots are not constructed (C07 covers body mutations, C06 cross-backend block histories).",
    design="2/C01"),
+ "C09": dict(
+   technique="tree enumeration of all block-order words on a real 3-level node; at every node exhaustive single-field deviation of the child header offered to the real VerifyHeader of every chain it belongs to; entropy and order-stability oracles",
+   text="At each of the 120 (thorough 1092) nodes of the tree of block-order words over {zone, region, prime} up to depth 4 (6), the child assembled by the node's worker is accepted by VerifyHeader of every chain it belongs to, each of 30 single-field deviations (number, time before parent / far future, difficulty, prime-terminus hash and number, lock, data, coinbase scope, location, share fields before the fork, per-context parent entropy / delta entropy / uncled delta entropy, efficiency score, threshold count, expansion number, eligible slices, prime/region state roots, miner difficulty, gas and state limits/usage, base fee, extra size) that survives the wire encoding is rejected by at least one of those chains, accumulated entropy strictly increases in every chain, and CalcOrder is identical on repeated calls, for the round-tripped object and on a cold replica.",
+   note="Trusts: injected PoW engine (deviations keep a valid seal so that the header rules decide), fork regime before KawPow (post-fork share-difficulty derivations are not driven), scaled constants. A deviation is counted as accepted only if every chain of a full node accepts it.",
+   design="2/C09"),
 }
 
 NOT_YET = "check not built yet in this session (planned; see DESIGN.md section 2)"
